@@ -152,7 +152,53 @@ class OpGen:
             ks = [k for k in ks if k not in ("perimeter", "circularity")]
         return sorted(ks)
 
+    scenarios = ("reparent-history",)  # "stale" (feature switching) only where asked for
+
     def gen_scenario(self, tracks):
+        kinds = list(self.scenarios)
+        self.rng.shuffle(kinds)
+        for kind in kinds:
+            op = (self.gen_scenario_stale if kind == "stale"
+                  else self.gen_scenario_reparent)(tracks)
+            if op is not None:
+                return op
+        return None
+
+    def gen_scenario_reparent(self, tracks):
+        """Two order-dependent edits (cut c from its parent, give it another one), both
+        undone, a new edit, then the whole history walked back and forth: every step is
+        replayed from the history in a state other than the one it was recorded in if the
+        history mis-orders anything."""
+        rng = self.rng
+        g = tracks.graph
+        cs = [int(c) for c in g.nodes if g.in_degree(c) == 1]
+        rng.shuffle(cs)
+        for c in cs:
+            p = int(next(iter(g.predecessors(c))))
+            tc = node_time(tracks, c)
+            qs = [int(q) for q in g.nodes if q != p and node_time(tracks, q) < tc
+                  and g.out_degree(q) < 2]
+            if not qs:
+                continue
+            q = rng.choice(qs)
+
+            def other_edit(tr):
+                for _ in range(10):
+                    op = rng.choice([self.gen_update_attrs, self.gen_add_node,
+                                     self.gen_delete_edge])(tr)
+                    if op is not None:
+                        return op
+                return {"op": "undo"}
+
+            nback = rng.randint(2, 4)
+            self.queue = ([lambda tr: {"op": "add_edge", "edge": [q, c], "force": False},
+                           lambda tr: {"op": "undo"}, lambda tr: {"op": "undo"}, other_edit]
+                          + [lambda tr: {"op": "undo"}] * nback
+                          + [lambda tr: {"op": "redo"}] * rng.randint(1, nback))
+            return {"op": "delete_edge", "edge": [p, c]}
+        return None
+
+    def gen_scenario_stale(self, tracks):
         """'value saved while stale': disable k - change a mask - delete the element -
         enable k (bulk recomputation cannot see the deleted element) - undo (- redo - undo)."""
         rng = self.rng
